@@ -89,6 +89,7 @@ type envPlugin struct {
 	update []*ContainerUpdate
 	cfgEvents int32
 	syncFn func(*SynchronizeRequest) (*SynchronizeResponse, error)
+	adjustFn func(*CreateContainerRequest) *ContainerAdjustment // when set: the adjustment depends on the request
 }
 
 func (p *envPlugin) record(ctx context.Context, method string, ev api.Event, arg interface{}) {
@@ -151,6 +152,9 @@ func (p *envPlugin) CreateContainer(ctx context.Context, req *CreateContainerReq
 	p.record(ctx, "CreateContainer", api.Event_CREATE_CONTAINER, req)
 	if e := p.err(); e != nil {
 		return nil, e
+	}
+	if p.adjustFn != nil {
+		return &CreateContainerResponse{Adjust: p.adjustFn(req), Update: p.update}, nil
 	}
 	return &CreateContainerResponse{Adjust: p.adjust, Update: p.update}, nil
 }
